@@ -5,8 +5,8 @@ HERE = os.path.dirname(os.path.dirname(os.path.abspath(__file__)))
 
 TECH = "deterministic simulation with fault injection"
 CHECKS = {
- "C01": ("exploration", "seeded search over simulated deployments (plans = swarm configuration + caller schedule + per-operation entropy / adversary RNG tape); invariant sum(importance)==explained_loss evaluated after every operation, with == in exact-rational worlds",
-         "4/C01", "stub models/losses are deterministic; exact worlds use a float-absorbing Fraction; bounds d<=6, n_inner<=4, T<=60"),
+ "C01": ("exploration", "seeded search over simulated deployments (plans = swarm configuration + caller schedule + per-operation entropy / adversary RNG tape); invariant sum(importance)==explained_loss evaluated after every operation, with == (and an exact result type) in exact-rational worlds incl. plain fractions.Fraction; float worlds also with an everywhere-discontinuous loss; a stratum on the real TreeStorage/TreeImputer",
+         "4/C01", "stub models/losses are deterministic; exact worlds use a float-absorbing Fraction or fractions.Fraction; bounds d<=6, n_inner<=4, T<=60 (long stratum up to 400)"),
  "C02": ("exploration", "refinement of an independent closed-form PFI reference driven by the recorded seam history, on every prefix of seeded simulated schedules",
          "4/C02", "reference reads inner predictions off the imputer seam; default-imputer worlds group model calls by n_inner"),
  "C03": ("exploration", "refinement of an independent closed-form SAGE reference (order read off the imputer calls) on every prefix of seeded simulated schedules incl. growing label sets",
